@@ -295,6 +295,9 @@ func (g *genCtx) genCtor(s int) *Func {
 	}
 	f.HasErr = g.r.P(0.7)
 	f.ErrFirst = f.HasErr && g.r.P(ft.PErrFirst)
+	if f.HasErr && !f.ErrFirst && len(f.Results) >= 2 && g.r.P(ft.PErrFirst) {
+		f.ErrAt = g.r.Range(1, len(f.Results)-1) // (T1, error, T2): legal, unusual
+	}
 	f.Reenter = g.r.P(ft.PReenter)
 	maxT := minT
 	wild := g.r.P(ft.Wild)
@@ -398,6 +401,9 @@ func (g *genCtx) genDecorator(s int) *Func {
 	g.ft.Soft, g.ft.Optional, g.ft.NamedSlice = saveSoft, saveOpt, saveNS
 	f.HasErr = g.r.P(0.7)
 	f.ErrFirst = f.HasErr && g.r.P(g.ft.PErrFirst)
+	if f.HasErr && !f.ErrFirst && len(f.Results) >= 2 && g.r.P(g.ft.PErrFirst) {
+		f.ErrAt = g.r.Range(1, len(f.Results)-1)
+	}
 	f.Callback = g.ft.Callbacks && g.r.P(0.5)
 	return f
 }
